@@ -45,6 +45,9 @@ func runC16(c *Check, tier string) {
 	shareRule(c, "R16k", "every insertion into the node map is guarded by a lookup of the same label that rejects a duplicate (same obligations as R11c)", 2, "R11c", func(sub *Check) { ruleR11c(sub) }, func(k string) bool { return strings.Contains(k, "guarded-insert") })
 	// round 7: a module's top-level statements run for every package that loads it
 	ruleModuleCachePerLoad(c, "R16s")
+	// a load error never turns into a hang: the workers keep draining the file queue the walker blocks on
+	ruleQueueDrained(c, "R16t")
+	ruleScalarsNotReRendered(c, "R16u")
 }
 
 // R16j: a loader's error reaches the caller: no function of internal/loading (nor the node-map constructor)
@@ -823,7 +826,7 @@ func ruleSharedMapNotWritten(c *Check, rule string) {
 // program ends; a BUILD.star (or a module it loads) that loops — by mistake or on purpose — keeps the loader
 // goroutine busy forever unless the thread has a step budget or is cancelled when the load context ends.
 func ruleStarlarkThreadsBounded(c *Check, rule string) {
-	c.Rule(rule, "every function of internal/loading that creates a starlark.Thread and executes a file on it bounds the evaluation: it sets a step budget (Thread.SetMaxExecutionSteps) or arranges for Thread.Cancel when the load context is done", 2)
+	c.Rule(rule, "every function of internal/loading that creates a starlark.Thread and executes a file on it bounds the evaluation: it sets a step budget (Thread.SetMaxExecutionSteps) or arranges for Thread.Cancel when the load context is done", 1)
 	n := 0
 	for _, fn := range c.P.Funcs {
 		if !engine.InPackage(fn, "loading") || fn.Parent() != nil {
